@@ -666,7 +666,15 @@ fn main() {
             .map(|(ji, i, _)| {
                 let mut part = rep.fork();
                 let t0 = thread_cpu();
-                let r = jobs[*ji].run(thorough, seed, &atk, ks[*ji], Some(*i), &mut part);
+                // a panic that escapes the stages is a harness problem: inconclusive, never a verdict
+                let r = match catch_any(|| jobs[*ji].run(thorough, seed, &atk, ks[*ji], Some(*i), &mut part)) {
+                    Ok(r) => r,
+                    Err(p) => {
+                        let name = jobs[*ji].name();
+                        part.inconclusive(&format!("{name} input {i}: harness panic at {}: {}", p.location, p.message));
+                        (name, OpStats::default(), AtkStats::default(), ks[*ji])
+                    }
+                };
                 (part, r, thread_cpu() - t0)
             })
             .collect()
